@@ -1221,4 +1221,115 @@ theorem reachable_progress {F : Facts} (hF : F = Facts.guarded) (lists : List (L
   obtain ⟨op, rest, hp⟩ := List.exists_cons_of_ne_nil hne
   exact (init_prog_mem (f.progs v op (by rw [hp]; exact List.mem_cons_self))).1
 
+/-! ### real-time bookkeeping (ghost `spans`, any facts) -/
+
+/-- `spans` runs parallel to `hist`; the last-step indices increase along the
+    log and lie in the past; an operation starts no later than it ends -/
+structure Timed (s : State) : Prop where
+  len : s.spans.length = s.hist.length
+  sorted : s.spans.Pairwise (fun a b => a.2 < b.2)
+  bound : ∀ p ∈ s.spans, p.2 < s.trace.length
+  le : ∀ p ∈ s.spans, p.1 ≤ p.2
+  start : ∀ t, (s.threads t).startAt ≤ s.trace.length
+
+theorem timed_init (lists : List (List Nat)) (progs : List (List Op)) : Timed (init lists progs) :=
+  ⟨rfl, List.Pairwise.nil, by simp [init], by simp [init], by simp [init]⟩
+
+theorem timed_snoc {s : State} (h : Timed s) (st : Nat) (hst : st ≤ s.trace.length) :
+    (s.spans ++ [(st, s.trace.length)]).Pairwise (fun a b => a.2 < b.2) ∧
+    (∀ p ∈ s.spans ++ [(st, s.trace.length)], p.2 < s.trace.length + 1) ∧
+    (∀ p ∈ s.spans ++ [(st, s.trace.length)], p.1 ≤ p.2) := by
+  refine ⟨?_, ?_, ?_⟩
+  · rw [List.pairwise_append]
+    refine ⟨h.sorted, List.pairwise_singleton _ _, ?_⟩
+    intro a ha b hb
+    simp only [List.mem_singleton] at hb
+    subst hb
+    exact h.bound a ha
+  · intro p hp
+    rcases List.mem_append.1 hp with hp | hp
+    · exact Nat.lt_succ_of_lt (h.bound p hp)
+    · simp only [List.mem_singleton] at hp; subst hp; exact Nat.lt_succ_self _
+  · intro p hp
+    rcases List.mem_append.1 hp with hp | hp
+    · exact h.le p hp
+    · simp only [List.mem_singleton] at hp; subst hp; exact hst
+
+theorem step_timed {F : Facts} {t : Nat} {s s' : State} (ht : Timed s) (h : step F t s = some s') :
+    Timed s' := by
+  have hstart : (if (s.threads t).pc = 0 then s.trace.length else (s.threads t).startAt) ≤ s.trace.length := by
+    split
+    · exact Nat.le_refl _
+    · exact ht.start t
+  unfold step at h
+  simp only at h
+  split at h
+  · cases h
+  · split at h
+    · cases h
+    · split at h
+      · cases h
+      · split at h
+        · cases h
+          refine ⟨ht.len, ht.sorted, ?_, ht.le, ?_⟩
+          · intro p hp
+            simp only [List.length_append, List.length_singleton]
+            exact Nat.lt_succ_of_lt (ht.bound p hp)
+          · intro u
+            simp only [List.length_append, List.length_singleton]
+            by_cases hu : u = t
+            · subst hu
+              simp only [upd_same]
+              exact Nat.le_succ_of_le hstart
+            · simp only [upd_other _ _ _ _ hu]
+              exact Nat.le_succ_of_le (ht.start u)
+        · cases h
+          obtain ⟨h1, h2, h3⟩ := timed_snoc ht _ hstart
+          refine ⟨by simp [ht.len], h1, ?_, h3, ?_⟩
+          · simpa using h2
+          · intro u
+            simp only [List.length_append, List.length_singleton]
+            by_cases hu : u = t
+            · subst hu
+              simp only [upd_same]
+              exact Nat.le_succ_of_le (ht.start u)
+            · simp only [upd_other _ _ _ _ hu]
+              exact Nat.le_succ_of_le (ht.start u)
+        · cases h
+          obtain ⟨h1, h2, h3⟩ := timed_snoc ht _ hstart
+          refine ⟨by simp [ht.len], h1, ?_, h3, ?_⟩
+          · simpa using h2
+          · intro u
+            simp only [List.length_append, List.length_singleton]
+            by_cases hu : u = t
+            · subst hu
+              simp only [upd_same]
+              exact Nat.le_succ_of_le (ht.start u)
+            · simp only [upd_other _ _ _ _ hu]
+              exact Nat.le_succ_of_le (ht.start u)
+
+theorem run_timed {F : Facts} : ∀ (sched : List Nat) (s s' : State),
+    Timed s → run F s sched = some s' → Timed s' := by
+  intro sched
+  induction sched with
+  | nil => intro s s' ht h; simp only [run, Option.some.injEq] at h; subst h; exact ht
+  | cons t rest ih =>
+    intro s s' ht h
+    simp only [run] at h
+    split at h
+    · cases h
+    · rename_i s1 hs
+      exact ih s1 s' (step_timed ht hs) h
+
+/-- in a timed log, an operation whose last step precedes another's first step
+    comes first -/
+theorem timed_order {s : State} (ht : Timed s) (i j : Nat) (hi : i < s.spans.length)
+    (hj : j < s.spans.length) (h : (s.spans[i]).2 < (s.spans[j]).1) : i < j := by
+  have hle := ht.le (s.spans[j]) (List.getElem_mem hj)
+  rcases Nat.lt_trichotomy i j with hlt | heq | hgt
+  · exact hlt
+  · subst heq; omega
+  · have := (List.pairwise_iff_getElem.1 ht.sorted) j i hj hi hgt
+    omega
+
 end RotoV.ListConc
